@@ -43,6 +43,23 @@ def walk_blocks(blocks):
             yield from walk_blocks(b["blocks"])
 
 
+def run_pairs(doc) -> set:
+    """(a, b) for every two consecutive body tokens of one paragraph / list item (what a renderer with the run_space option separates by a blank)."""
+    pairs = set()
+
+    def of(inl):
+        toks = [i["tok"] for i in walk_inlines(inl) if i["k"] == "t" and i["tok"][:2] == "ZB"]
+        pairs.update(zip(toks, toks[1:]))
+    for u in doc["units"]:
+        for b in walk_blocks(u["blocks"]):
+            if b["k"] == "p":
+                of(b["inl"])
+            elif b["k"] == "list":
+                for it in list_items(b["items"]):
+                    of(it["inl"])
+    return pairs
+
+
 def list_items(items):
     for it in items:
         yield it
